@@ -170,11 +170,13 @@ def judge(family, case, rec):
         W, means, variances, iv = case["W"], case["means"], case["variances"], case["iv"]
         model = sempler.LGANM(W, means, variances)
         kw = {"do_interventions": iv["do"], "noise_interventions": iv["noise"], "shift_interventions": iv["shift"]}
-        pop = model.sample(population=True, **kw)
+        # the reference law comes from a separate, freshly built instance, so that state kept on the sampled model by earlier
+        # calls cannot shape the reference as well
+        pop = sempler.LGANM(W, means, variances).sample(population=True, **kw)
         pop_mean, pop_cov = np.asarray(pop.mean, dtype=float), np.asarray(pop.covariance, dtype=float)
         nontrivial = bool(len(W) >= 2 and (np.abs(pop_cov - np.diag(np.diag(pop_cov))).max() > 0 or any(iv[k] for k in iv)))
         if family == "lganm":
-            if len(W) % 2 and iv["do"]:
+            if (len(W) + case["rs"]) % 3 and iv["do"]:
                 # a parameter sweep: ONE dict object, edited in place between calls (first another value, then the judged one)
                 sweep = dict(iv["do"])
                 first = dict((j, ((v[0] - 5.0, v[1] + 1.0) if isinstance(v, tuple) else v + 3.0)) for j, v in iv["do"].items())
